@@ -396,6 +396,12 @@ func (kcp *KCP) Send(buffer []byte) int {
 					capacity := int(kcp.mss) - len(seg.data)
 					extend := min(len(buffer), capacity)
 
+					// refuse before touching the queue: Send must not take part of a
+					// buffer it is going to reject (see the count > 255 test below)
+					if (len(buffer)-extend+int(kcp.mss)-1)/int(kcp.mss) > 255 {
+						return -2
+					}
+
 					// grow slice, the underlying cap is guaranteed to
 					// be larger than kcp.mss
 					oldlen := len(seg.data)
